@@ -234,12 +234,40 @@ theorem wfTextObs_ofText {cfg : Cfg} {cap : Nat} {t : Text} (h : TxtWF cfg cap t
     · right; rw [← e]; exact printable_of_conv cfg hb1 hb2
 
 /-- C16 for one call: the getter-visible texts after any call are well-formed -/
+theorem wfp_cleared_never (t : Text) : (Text.cleared t).all (fun c => c.lvl == 10) = true := by
+  simp [Text.cleared, blank]
+
+theorem wfp_replicate_never (n : Nat) : (List.replicate n blank).all (fun c => c.lvl == 10) = true := by
+  simp [blank]
+
+/-- right after `init` / `clear` no cell of any text counts as received -/
+theorem wfp_reset_blank (cfg : Cfg) (s : State) (op : Op) (h : op.isReset = true) :
+    (neverReceived (Obs.ofState (step cfg s op).1).ps && neverReceived (Obs.ofState (step cfg s op).1).rt0 &&
+      neverReceived (Obs.ofState (step cfg s op).1).rt1 && neverReceived (Obs.ofState (step cfg s op).1).ptyn) = true := by
+  cases op <;> simp only [Op.isReset] at h <;> try contradiction
+  · simp only [step, initState, Obs.ofState, neverReceived, TextObs.ofText, wfp_replicate_never, Bool.and_self]
+  · simp only [step, clearState, Obs.ofState, neverReceived, TextObs.ofText, wfp_cleared_never, Bool.and_self]
+
 theorem chkC16_ok (tb : Tabs) (s : State) (op : Op) (hw' : WF tb (step tb.cfg s op).1) :
     chkC16 tb.cfg (recOf tb.cfg s op) = true := by
-  simp only [chkC16, recOf, Obs.ofState, Bool.and_eq_true]
-  rw [hw'.termPs, hw'.termRt0, hw'.termRt1, hw'.termPtyn]
-  exact ⟨⟨⟨wfTextObs_ofText ⟨hw'.psLen, hw'.psOk⟩, wfTextObs_ofText ⟨hw'.rt0Len, hw'.rt0Ok⟩⟩,
-    wfTextObs_ofText ⟨hw'.rt1Len, hw'.rt1Ok⟩⟩, wfTextObs_ofText ⟨hw'.ptynLen, hw'.ptynOk⟩⟩
+  have hreset : (!op.isReset || (neverReceived (Obs.ofState (step tb.cfg s op).1).ps &&
+      neverReceived (Obs.ofState (step tb.cfg s op).1).rt0 && neverReceived (Obs.ofState (step tb.cfg s op).1).rt1 &&
+      neverReceived (Obs.ofState (step tb.cfg s op).1).ptyn)) = true := by
+    cases hr : op.isReset
+    · rfl
+    · simpa using wfp_reset_blank tb.cfg s op hr
+  have hwf : (wfTextObs tb.cfg (Obs.ofState (step tb.cfg s op).1).ps capPs &&
+      wfTextObs tb.cfg (Obs.ofState (step tb.cfg s op).1).rt0 capRt &&
+      wfTextObs tb.cfg (Obs.ofState (step tb.cfg s op).1).rt1 capRt &&
+      wfTextObs tb.cfg (Obs.ofState (step tb.cfg s op).1).ptyn capPtyn) = true := by
+    simp only [Obs.ofState, Bool.and_eq_true]
+    rw [hw'.termPs, hw'.termRt0, hw'.termRt1, hw'.termPtyn]
+    exact ⟨⟨⟨wfTextObs_ofText ⟨hw'.psLen, hw'.psOk⟩, wfTextObs_ofText ⟨hw'.rt0Len, hw'.rt0Ok⟩⟩,
+      wfTextObs_ofText ⟨hw'.rt1Len, hw'.rt1Ok⟩⟩, wfTextObs_ofText ⟨hw'.ptynLen, hw'.ptynOk⟩⟩
+  show (_ && _) = true
+  simp only [chkC16, recOf] at *
+  rw [Bool.and_eq_true]
+  exact ⟨hwf, hreset⟩
 
 theorem wf_runFrom (tb : Tabs) (h : EccOk tb) (ops : List Op) :
     ∀ s, WF tb s → WF tb (runFrom tb.cfg s ops) := by
